@@ -252,7 +252,11 @@ def prove_eq(lhs, rhs, hyps, opts):
                         return -1
                     return None
 
-                st, info = tower.is_zero(g, budget_s=opts.get("ring_budget", 60.0), control=ctrl, sign_oracle=oracle)
+                # fast path first: without the sign oracle the tower lacks sqrt(r^2) = |r| but whatever it normalises to zero is zero;
+                # the oracle (z3 calls + square-free factorisation of every radicand) is only paid for when that is not enough
+                st, info = tower.is_zero(g, budget_s=opts.get("ring_budget", 60.0), control=ctrl, sign_oracle=None)
+                if st not in ("zero", "unsound"):
+                    st, info = tower.is_zero(g, budget_s=opts.get("ring_budget", 60.0), control=ctrl, sign_oracle=oracle)
                 if st == "unsound":
                     return "error", "ring", "negative control normalised to zero: back end unsound"
                 if st == "gaveup":
@@ -324,7 +328,7 @@ def run_sym_group(spec, tier, seed):
             tries += 1
             env = _sample_env(ctx.inputs, rng)
             try:
-                ok = all(tm.eval_float([h], env)[0] is True or tm.eval_float([h], env)[0] == True for h in hyps)  # noqa: E712
+                ok = all(tm.eval_float([h], env, interpret_uf=True)[0] == True for h in hyps)  # noqa: E712
             except KeyError:
                 ok = True
             if ok:
@@ -375,16 +379,18 @@ def _discharge(oname, kind, l, r, hyps, pts, opts, spec):
     for env in pts:
         try:
             if kind == "eq":
-                x, y = tm.eval_float([l, r], env)
+                x, y = tm.eval_float([l, r], env, interpret_uf=True)
                 bad = (x != x) or (y != y) or _rel_err(x, y) > tol
             else:
-                (x,) = tm.eval_float([l], env)
+                (x,) = tm.eval_float([l], env, interpret_uf=True)
                 bad = x is False or x == False  # noqa: E712
         except KeyError:
             continue
         if bad:
             return mk_result(oname, clause, "P", "refuted", "numeric", time.time() - t0,
-                             "claim fails at a sampled point satisfying the precondition: %s" % ((x, y) if kind == "eq" else x,),
+                             "claim fails at a sampled point satisfying the precondition: %s%s"
+                             % ((x, y) if kind == "eq" else x, " (uninterpreted functions uf_*: interpretation terms.uf_interpretation)"
+                                if any(t.op == "f" and str(t.args[0]).startswith("uf_") for t in tm.postorder([l] + ([r] if r is not None else []))) else ""),
                              witness=env)
     # 1. case split on the ite (tf.where) conditions, pruned by the hypotheses
     roots = [l] + ([r] if r is not None else [])
